@@ -108,7 +108,7 @@ pred respStatus429() := ptr(outResp, "*httpprot.Response").Response.StatusCode
 
 func (rl *RateLimiter) Handle(ctx *context.Context) (result string)
   flag allocates
-  flag frame=unchecked
+  modifies allof("ghost:github.com/megaease/easegress/pkg/context.outResp"), allof("ghost:github.com/megaease/easegress/pkg/context.outRespTyp"), allof("ghost:github.com/megaease/easegress/pkg/filters/ratelimiter.gAdmitted"), allof("ghost:github.com/megaease/easegress/pkg/filters/ratelimiter.gCancelled"), allof("ghost:github.com/megaease/easegress/pkg/filters/ratelimiter.gImposed"), allof("ghost:github.com/megaease/easegress/pkg/filters/ratelimiter.gRule"), allof("ghost:github.com/megaease/easegress/pkg/filters/ratelimiter.gTimerFired"), allof("ghost:github.com/megaease/easegress/pkg/util/ratelimiter.clock"), allof("ghostf:github.com/megaease/easegress/pkg/util/ratelimiter.RateLimiter.rel"), allof("map<string,[]string>#card"), allof("map<string,[]string>#dom"), allof("map<string,[]string>#val#arr"), allof("map<string,[]string>#val#cap"), allof("map<string,[]string>#val#len"), allof("util/ratelimiter.RateLimiter.cycle"), allof("util/ratelimiter.RateLimiter.state"), allof("util/ratelimiter.RateLimiter.tokens")
   requires rl != nil && rl.spec != nil && ctx != nil && ctxInput(ref(ctx)) != 0
   requires limiters-created: forall k int :: 0 <= k && k < len(rl.spec.URLs) ==> rl.spec.URLs[k] != nil && usableLimiter(rl.spec.URLs[k].rl)
   ensures unmatched-urls-are-never-limited: (forall k int :: 0 <= k && k < len(rl.spec.URLs) ==> !ruleHits(rl.spec, k, ctx)) ==> result == "" && gRule == -1
